@@ -44,6 +44,9 @@ type Case struct {
 	FS     []vnet.Fault `json:"fs,omitempty"`
 	Starve string       `json:"starve,omitempty"` // "", "C", "S": everything sent TO that side is dropped (total ACK starvation)
 	Forge  bool         `json:"forge,omitempty"`  // inject records under the next, not yet authorised generation
+	// LoseNST: the first LoseNST transmissions of the server's NewSessionTicket are lost and the
+	// operation lists start at once, while that post-handshake flight is still unacknowledged
+	LoseNST int `json:"losenst,omitempty"`
 }
 
 type updRec struct {
@@ -67,6 +70,19 @@ func run(c Case, r *pbt.R) {
 		env.Log = &scen.LogSink{Keep: os.Getenv("VERIF_DEBUG") != ""}
 		p := scen.NewPair(env, &cEP, &sEP)
 		defer p.Close()
+		nstLost := 0
+		if c.LoseNST > 0 {
+			p.Net.FaultFn = func(ev *vnet.Event) *vnet.Fault {
+				// the ticket is the server's only epoch-3 datagram of that size (its ACKs are ~35 bytes)
+				if ev.From == "S" && len(ev.Data) >= 60 && ev.Data[0]&0xe0 == 0x20 && ev.Data[0]&0x03 == 3 && nstLost < c.LoseNST {
+					nstLost++
+
+					return &vnet.Fault{Kind: vnet.Drop}
+				}
+
+				return nil
+			}
+		}
 		p.Handshake(10 * time.Minute)
 		if !(p.C.OK() && p.S.OK()) {
 			r.Failf("C20|harness|handshake", "setup failed: %v %v", p.C.Err(), p.S.Err())
@@ -75,7 +91,11 @@ func run(c Case, r *pbt.R) {
 		}
 		p.C.StartReader()
 		p.S.StartReader()
-		time.Sleep(3 * time.Second) // let the NewSessionTicket / ACK exchange finish
+		if c.LoseNST == 0 {
+			time.Sleep(3 * time.Second) // let the NewSessionTicket / ACK exchange finish
+		} else {
+			r.Class("ticket-unacknowledged-at-start")
+		}
 		scen.Settle()
 		baseIdx := map[string]int{"C": p.Net.Sent("C"), "S": p.Net.Sent("S")}
 		hsEvents := len(p.Net.Events())
@@ -84,6 +104,11 @@ func run(c Case, r *pbt.R) {
 			to := "S"
 			if ev.From == "S" {
 				to = "C"
+			}
+			if c.LoseNST > 0 && ev.From == "S" && len(ev.Data) >= 60 && len(ev.Data) <= 120 && ev.Data[0]&0xe0 == 0x20 && ev.Data[0]&0x03 == 3 && nstLost < c.LoseNST {
+				nstLost++
+
+				return &vnet.Fault{Kind: vnet.Drop}
 			}
 			if c.Starve == to {
 				return &vnet.Fault{Kind: vnet.Drop}
@@ -451,6 +476,9 @@ func gen(t *rapid.T) Case {
 	if rapid.IntRange(0, 1).Draw(t, "faults") == 0 {
 		c.FC = scen.GenFaults(t, "fc", 8)
 		c.FS = scen.GenFaults(t, "fs", 8)
+	}
+	if rapid.IntRange(0, 3).Draw(t, "losenst") == 0 {
+		c.LoseNST = rapid.IntRange(1, 3).Draw(t, "losenstn")
 	}
 	if rapid.IntRange(0, 7).Draw(t, "starve") == 0 {
 		c.Starve = rapid.SampledFrom([]string{"C", "S"}).Draw(t, "starveside")
